@@ -19,6 +19,7 @@ import Goat.ClientStream
 import Goat.Drv.MuxReplay
 import Goat.Drv.SrvReplay
 import Goat.Drv.PbOps
+import Goat.Drv.PxOps
 import Goat.UnaryReply
 import Goat.Props.C02
 open Goat Goat.Drv
@@ -383,7 +384,7 @@ def evalOp (op input : String) : Option String :=
       if mode == "unary" then some (showOutcome (StatusM.clientUnary true st (if hb == "1" then some [] else none)))
       else some (showOutcome (StatusM.clientStreamTerminal true (rst == "1") st))
     | _ => none
-  | _ => evalPb op input
+  | _ => (evalPb op input).orElse (fun _ => Goat.Drv.evalPx op input)
 
 structure Tally where
   lines : Nat := 0
